@@ -131,7 +131,10 @@ Definition sstep (s : sstate) (kind : string) (a : list N) (res : val) (events :
   if ev_eqb (sort_ev expected) events then (0, s2)
   else
     (* same number of dispatches but different worker / id / ring: routing (C17); otherwise the life-cycle (C11) *)
-    ((if Nat.eqb (List.length expected) (List.length events) then 17 else 11), s2).
+    (* a due dispatch that did not happen (or went elsewhere) contradicts both the life-cycle (C11: delivered when started
+       and enabled) and the routing (C17: delivered to the owner with its rank); a dispatch that was not due only C11 *)
+    ((if Nat.eqb (List.length expected) (List.length events) then 17
+      else if Nat.ltb (List.length events) (List.length expected) then 28 else 11), s2).
 
 Fixpoint swalk (s : sstate) (steps obs : list val) : N :=
   match steps, obs with
@@ -155,10 +158,10 @@ Definition dmn_spec (args : list val) : val :=
           if hasb v 8 && hasb f VF_PROTOCOL_FEATURES then
             let v := swalk {| ss_rings := repeat {| sr_started := false; sr_enabled := false; sr_kick := None; sr_size := maxq; sr_next_avail := 0 |} (N.to_nat nq);
                               ss_pending := []; ss_masks := ms; ss_features := f |} steps obs in
-            if v =? 17 then VS "false:C17" else if negb (v =? 0) then VS "false:C11"
+            if v =? 17 then VS "false:C17" else if v =? 28 then VS "false:C11,C17" else if negb (v =? 0) then VS "false:C11"
             else
               let w := mwalk (minit nq maxq f) steps obs in
-              if w =? 0 then VS "true" else if w =? 13 then VS "false:C13" else if w =? 15 then VS "false:C15" else VS "false:C14"
+              if w =? 0 then VS "true" else if w =? 5 then VS "false:C05" else if w =? 13 then VS "false:C13" else if w =? 15 then VS "false:C15" else VS "false:C14"
           else VS "n/a"
       | _, _ => VS "n/a"
       end
